@@ -16,7 +16,9 @@
      reference decoder returns the value (SET OF: elements in the order written, i.e.
      the same value up to SET OF order) and consumes exactly the encoding;
    - every permutation of SET OF elements is denoted by some oracle;
-   - DER is the member of the family with the canonical choices.
+   - DER is the member of the family with the canonical choices;
+   - (later rounds, below) tag-to-member maps, OER length determinants in every form, and
+     the XER text reader: every legal spelling of every character is read as that character.
    Not modelled in Coq (tie only, see notes/design/C03.md): constructed OCTET STRINGs,
    UPER/OER/XER variants, and the C's ber_check_tags chain rule (the reference decoder
    accepts mixed chains; the C does not: finding C03-ber-chain-mixed-lengths). *)
@@ -275,3 +277,42 @@ Theorem C03_oer_c_decoder_differs_in_length_readers_only : forall t bs,
   oer_dec_g oer_get_length oer_get_quantity t bs = oer_dec t bs.
 Proof. exact oer_dec_g_ref. Qed.
 Print Assumptions C03_oer_c_decoder_differs_in_length_readers_only.
+
+(* ---- round c03z: VALUE-LEVEL completeness of the XER text reader (coq/Rt/EntrefComplete.v, EntrefCompleteProofs.v) ----
+   The reader is the model of OS__strtoent / OCTET_STRING__convert_entrefs of coq/Rt/ResumeX.v (C05 proves that it inverts the one
+   spelling the library's encoder writes).  Completeness: EVERY legal spelling of every character is read as that character. *)
+From A1 Require Import Rt.Resume Rt.ResumeX Rt.EntrefComplete Rt.EntrefCompleteProofs.
+
+(* a numeric character reference with ANY digit string - decimal or hexadecimal, any number of leading zeros, every hex digit
+   a..f in either case, chosen digit by digit - that denotes a code point 1..0x10ffff is read as the UTF-8 octets of that code
+   point and consumed in full, whatever follows *)
+Theorem C03_entref_complete : forall hexa ds rest,
+  Forall (fun d => 0 <= fst d < base_of hexa) ds -> 0 < ref_val (base_of hexa) ds <= last_unicode ->
+  ref_at (ref_chars hexa ds ++ rest) = XChars (utf8_of (ref_val (base_of hexa) ds)) (length (ref_chars hexa ds)).
+Proof. intros hexa ds rest H1 H2. apply entref_complete. split; assumption. Qed.
+Print Assumptions C03_entref_complete.
+
+(* no code point is missing from the family: each has spellings of both kinds, in either case, behind any number of zeros *)
+Theorem C03_entref_every_code_point_has_spellings : forall hexa (up : bool) (zeros : nat) cp, 0 < cp <= last_unicode ->
+  exists ds, spelling_ok hexa ds /\ ref_val (base_of hexa) ds = cp /\ length ds = (zeros + 7)%nat.
+Proof. exact spelling_exists. Qed.
+Print Assumptions C03_entref_every_code_point_has_spellings.
+
+(* a text in which every character is written in any of its spellings (raw UTF-8, &amp; &lt; &gt;, numeric reference), followed by
+   a tag, is read as the string it spells and consumed in full *)
+Theorem C03_entref_text_complete : forall its acc rest, Forall item_ok its ->
+  entref_step acc (text_chars its ++ 60 :: rest) = (OK, length (text_chars its), acc ++ text_val its).
+Proof. exact entref_text_complete. Qed.
+Print Assumptions C03_entref_text_complete.
+
+(* the reader with the digit table as a parameter is, with the C's table, the reader of ResumeX ... *)
+Theorem C03_entref_reader_parametrised : forall w, ref_at_g digit_c w = ref_at w.
+Proof. exact ref_at_g_digit_of. Qed.
+Print Assumptions C03_entref_reader_parametrised.
+
+(* ... and with the lower-case-only table (seeded/C03-6) completeness is FALSE: "&#xE9;" is a legal spelling of U+00E9 it does not read *)
+Theorem C03_entref_complete_lowercase_table_refuted : exists hexa ds rest,
+  spelling_ok hexa ds /\
+  ref_at_g digit_lower (ref_chars hexa ds ++ rest) <> XChars (utf8_of (ref_val (base_of hexa) ds)) (length (ref_chars hexa ds)).
+Proof. exact entref_complete_lower_refuted. Qed.
+Print Assumptions C03_entref_complete_lowercase_table_refuted.
